@@ -51,6 +51,13 @@ def hasZero : KType → Bool
 
 def isRequestHeaderName (n : List Nat) : Bool := n == strOf "RequestHeader"
 
+/-- the definition's reading of "this member of a structure has a default" (the test
+    `DefSpec.expDefault` applies to the members of a tagged structure) -/
+def memberHasDefault (g : FieldDef) : Bool :=
+  g.dflt.isSome && (match g.ty with
+    | .prim _ | .struct _ => g.fields.isSome || (match g.ty with | .prim _ => true | _ => false)
+    | _ => false)
+
 /-- conditions on one field that is visible at `v` -/
 def fieldOk (d : MsgDef) (v : Nat) (f : FieldDef) : Bool :=
   let flex := d.flexibleVersions.matches v
@@ -98,6 +105,20 @@ def fieldOk (d : MsgDef) (v : Nat) (f : FieldDef) : Bool :=
             | none => tag.isNone || f.ignorable
                       || (match f.fields with | some fs => onlyDefaults d fs | none => false)))
 
+/-- the default of a *tagged* inline structure depends on whether all of its members have defaults.
+    The generator decides this by parsing every member — also those not visible at `v`, about which
+    `Supported` says nothing else — (`onlyDefaults`: the member parses as a primitive or
+    inline-structure variant and has a default); the definition's reading (`DefSpec.expDefault`)
+    looks at the member's type and `default` key only (`memberHasDefault`).  The two tests must
+    agree: they differ for a member that does not parse (e.g. no `versions`) or whose
+    primitive-array type is overwritten because of an error-code name; without this condition
+    `module_defaults` is false (`module_defaults_needs_membersOk`, `module_defaults_needs_membersOk'`
+    in Kio/Proofs/GenCoherent.lean). -/
+def membersOk (d : MsgDef) (v : Nat) (f : FieldDef) : Bool :=
+  match f.ty, f.fields with
+  | .struct _, some fs => (tagAt f v).isNone || (onlyDefaults d fs == fs.all memberHasDefault)
+  | _, _ => true
+
 mutual
 /-- the names of the structures defined inline (fields with a `fields` key), in document order -/
 def FieldDef.inlineNames : FieldDef → List (List Nat)
@@ -122,7 +143,7 @@ def Supported (d : MsgDef) (v : Nat) : Bool :=
   && decide d.structNames.Nodup
   && structOk v false d.fields
   && d.commonStructs.all (fun cs => structOk v true cs.fields && !isRequestHeaderName cs.name)
-  && d.everywhere (fun f => !f.versions.matches v || fieldOk d v f)
+  && d.everywhere (fun f => !f.versions.matches v || (fieldOk d v f && membersOk d v f))
 
 end Kio.Gen
 
